@@ -8,4 +8,4 @@ From DD Require Import Driver3.
 Require Extraction.
 Require Import ExtrOcamlBasic.
 Extraction Language OCaml.
-Extraction "model.ml" step2 digest world_empty world_get astep adigest aworld_empty aworld_get.
+Extraction "model.ml" step2 digest world2_empty world2_get astep adigest aworld_empty aworld_get.
